@@ -30,7 +30,9 @@ RULE = ("generated UFO-3 fonts (1-3 layers, glyphs with outlines/components/anch
         "groups, features, lib, images, data; package directory or .ufoz zip) x histories built from scripted epochs "
         "[in-memory edits | external edit batch | test | lazy reads | reload / accept deletions | second test | "
         "usability probes: read unread glyph/image/data, save or save-as, test], scripted delete-in-memory / save-as / "
-        "external re-creation patterns for glyphs (read or never read), images and data, and random op soup; external edits: byte change, "
+        "external re-creation patterns for glyphs (read or never read), images and data, glyph renames (to a fresh name, onto a file, "
+        "chains), deletion and re-creation under the same name, repeated in-memory edits of one object, in-place saves while external "
+        "edits are unnoticed, and random op soup; external edits: byte change, "
         "touch-only, byte change with unchanged mtime, file creation, file deletion, glyph addition/removal with "
         "contents.plist updated, layer addition/removal/reorder/default change with layercontents.plist updated; "
         "non-trivial = at least one external edit followed by a test and at least one in-memory edit, lazy read or save; "
@@ -49,7 +51,8 @@ ASSUMPTIONS = [
     "save, with two-second wall-clock granularity, so the harness re-dates every entry to a time of its own right after "
     "the save (the reader the font opened at the end of the save keeps the archive it opened)",
     "zip archives are replaced atomically (os.replace), so a reader opened earlier keeps a consistent snapshot",
-    "an external layer addition / deletion / default-layer change is followed by a test at once; unless reload and "
+    "an external layer addition / deletion / default-layer change is followed (possibly after a reordering of layercontents.plist) "
+    "by a test at once; unless reload and "
     "accept-deletion follow, the histories neither save nor touch the glyphs of those layers any more; a save over a UFO "
     "whose layer structure was changed externally and not taken over is outside the property's domain (not judged; the "
     "model answers it `outside-the-modelled-domain`, implementation and model then stop being compared) - except that "
